@@ -36,7 +36,7 @@ OM = "krrood.ormatic.ormatic"
 T = "WrappedTable"
 FUNCTIONS = [(WT, f"{T}.{m}") for m in ("parse_field", "parse_fields", "fields", "create_builtin_column", "create_type_type_column",
                                        "create_one_to_one_relationship", "create_one_to_many_relationship", "create_json_column",
-                                       "create_custom_type", "get_table_of_wrapped_field", "tablename", "full_primary_key_name",
+                                       "create_custom_type", "get_table_of_wrapped_field", "tablename", "full_primary_key_name", "parent_table", "_find_direct_parent_wrapped",
                                        "base_class_name", "primary_key", "create_mapper_args", "has_children", "child_tables")] + [
     (WT, "ColumnConstructor.__str__"), (OM, "ORMatic._create_wrapped_tables"), (OM, "ORMatic.foreign_key_name"),
     (OM, "ORMatic.get_alternative_mapping"), (OM, "ORMatic.mapped_classes"), (OM, "ORMatic.make_all_tables")]
@@ -329,6 +329,45 @@ def h_create_tables():
     return Harness("create-tables", run, spec=Spec())
 
 
+def h_parent_table():
+    """parent_table of a normally mapped class = the table of the FIRST class of its MRO (after itself) that has a table;
+    classes outside the diagram and `object` are skipped; no mapped ancestor -> no parent."""
+    def run(vm):
+        ctx = vm.ctx
+        W = GW(vm)
+        obj = vm.ext("object")
+        names = ["C", "B", "Mixin", "A", "Z"]
+        K = {n: W.klass(n) for n in names}
+        wrapped = {n: vm.alloc(vm.ext("object"), {"clazz": K[n], "index": i}, tag=f"wrapped-{n}") for i, n in enumerate(names)}
+        in_diagram = {"C", "B", "A", "Z"}                 # Mixin is not part of the class diagram
+        from pyvc.interp import PyRaise as _PR
+        Unmapped = vm.loader.cls("krrood.class_diagrams.failures", "ClassIsUnMappedInClassDiagram")
+
+        def get_wrapped(it, fr, a, k):
+            for n, kk in K.items():
+                if a[0] is kk and n in in_diagram:
+                    return wrapped[n]
+            raise _PR(it.make_exc(Unmapped, a[0]))
+        diagram = vm.alloc(vm.ext("object"), {"get_wrapped_class": Builtin("get_wrapped_class", get_wrapped)}, tag="diagram")
+        W.om.fields["class_dependency_graph"] = diagram
+        vm.spec.attr_hooks[(T, "is_alternatively_mapped")] = lambda it, o: False
+        cases = [
+            ("direct base has a table", ["B", "A"], {"B", "A"}, "B"),
+            ("direct base outside the diagram is skipped", ["Mixin", "A"], {"A"}, "A"),
+            ("a base in the diagram without a table is skipped", ["B", "A"], {"A"}, "A"),
+            ("first of several mapped bases (MRO order)", ["B", "Z", "A"], {"A", "Z", "B"}, "B"),
+            ("no mapped ancestor", ["Mixin"], set(), None),
+        ]
+        for label, mro, with_table, want in cases:
+            K["C"].fields["__mro__"] = tuple([K["C"]] + [K[n] for n in mro] + [obj])
+            tables = {n: vm.alloc(cls(vm, WT, T), {"wrapped_clazz": wrapped[n], "ormatic": W.om}, tag=f"table-{n}") for n in with_table}
+            W.om.fields["wrapped_tables"] = make_dict([(wrapped[n], tables[n]) for n in sorted(with_table)])
+            t = vm.alloc(cls(vm, WT, T), {"wrapped_clazz": wrapped["C"], "ormatic": W.om}, tag="table-C")
+            got = vm._getattr(t, "parent_table")
+            ctx.check(f"{T}.parent_table::the-table-of-the-nearest-mapped-ancestor-in-mro-order", z3.BoolVal(got is (tables[want] if want else None)), detail=f"{label}: {got!r}")
+    return Harness("parent-table", run, spec=Spec())
+
+
 def h_no_hash_order():
     """Determinism: no function whose result reaches the template iterates a set / frozenset / dict.keys() of classes."""
     def run(vm):
@@ -363,4 +402,4 @@ def h_canary():
 
 
 def harnesses():
-    return [h_parse_field(), h_parse_fields(), h_fields(), h_columns(), h_relationships(), h_table_identity(), h_create_tables(), h_no_hash_order(), h_canary()]
+    return [h_parse_field(), h_parse_fields(), h_fields(), h_columns(), h_relationships(), h_table_identity(), h_create_tables(), h_parent_table(), h_no_hash_order(), h_canary()]
